@@ -141,7 +141,22 @@ def run(ctx):
             if b.locals[0][0] == 'bool':
                 ncl += 1
                 ctx.ob('R03.5', f'restore_job|retain closure {ncl}', neg, 'retain keeps exactly the entries that are NOT completed', b.loc(c))
-    ctx.floor('R03.5', ncl, 2, 'retain closures using is_task_completed')
+    # the dependency filter itself: task_deps.retain(|d| !is_task_completed(d)) -- nothing else may decide which dependencies survive
+    dep_ret = []
+    for p_ in prog.with_closures(rj.path):
+        b_ = prog.bodies[p_]
+        for bi_ in b_.call_blocks(lambda c: c.endswith('::retain') or c.endswith('::retain_mut')):
+            t_ = b_.term[bi_]
+            if 'task_deps' in local_field_sources(b_, op_local(t_['args'][0]), through_mutation=False):
+                cls_ = [norm(d[2]['rv'][1][1]) for a_ in t_['args'][1:] if op_local(a_) is not None for x in b_.derived_from(op_local(a_)) for d in b_.defs().get(x, ())
+                        if d[1] == 'a' and d[2]['rv'][0] == 'agg' and d[2]['rv'][1][0] == 'closure']
+                dep_ret.append((b_, bi_, cls_))
+    ctx.ob('R03.5', 'restore_job|dependency filter exists', len(dep_ret) == 1, f'restore_job filters task_deps at one place (observed {len(dep_ret)})', rj.loc())
+    for b_, bi_, cls_ in dep_ret:
+        okc = any(c_ in prog.bodies and prog.bodies[c_].call_blocks(RESTORE + 'is_task_completed') for c_ in cls_)
+        ctx.ob('R03.5', 'restore_job|dependencies dropped only if completed', okc,
+               'a dependency is removed on restore only when the task it points to is completed (is_task_completed); any other filter (e.g. "re-submitted in the same submit") drops dependencies on unfinished tasks of earlier submits', b_.loc(bi_))
+    ctx.ob('R03.5', 'restore_job|both filters present', ncl >= 2, f'task filter and dependency filter both use !is_task_completed (observed {ncl})', rj.loc())
     lef = prog.body(RESTORE + 'StateRestorer::load_event_file')
     RTI = RESTORE + 'RestorerTaskInfo'
     for ev, term in (('TasksAborted', 'Aborted'), ('TasksCanceled', 'Canceled')):
